@@ -1,4 +1,5 @@
 import Varint.Bridge.Tagged
+import Varint.Bridge.TaggedQ
 import Varint.Lemmas.Lex
 /-
   C05 — tagged varints sort bytewise (memcmp) in numeric order; prefix-free, so tuples sort too.
@@ -74,5 +75,21 @@ theorem c_tagged_lex_eq_compare (a b : Nat) (ha : a < 2 ^ 64) (hb : b < 2 ^ 64) 
     lexCmp ((Varint.Gen.C.taggedPut64 a).2.map Prod.snd) ((Varint.Gen.C.taggedPut64 b).2.map Prod.snd) = compare a b := by
   rw [(Varint.Bridge.Tagged.taggedPut64_eq a ha).2.1, (Varint.Bridge.Tagged.taggedPut64_eq b hb).2.1]
   exact tagged_lex_eq_compare a b ha hb
+
+/-- **keys built with the public inline encoder** (`varintTaggedLenQuick` + `varintTaggedPut64FixedWidthQuick_`, both
+    expanded from the CURRENT header with an argument of low operator precedence, `lo | hi`) are byte for byte the keys
+    `varintTaggedPut64` builds — so they sort numerically as well (`c_tagged_lex_eq_compare`). A macro parameter used
+    without parentheses breaks `taggedPutFixedQuick_eq`. -/
+theorem c_tagged_quick_keys (lo hi : Nat) (h : lo ||| hi < 2 ^ 64) :
+    Varint.Gen.C.taggedLenQuick (lo ||| hi) = Tagged.len (lo ||| hi) ∧
+    (Varint.Gen.C.taggedPutFixedQuick lo hi (Varint.Gen.C.taggedLenQuick (lo ||| hi))).map Prod.snd =
+      Tagged.enc (lo ||| hi) ∧
+    (Varint.Gen.C.taggedPutFixedQuick lo hi (Varint.Gen.C.taggedLenQuick (lo ||| hi))).map Prod.fst =
+      List.range (Tagged.len (lo ||| hi)) := by
+  have hl := Varint.Bridge.TaggedQ.taggedLenQuick_eq (lo ||| hi) h
+  have hf := Varint.Bridge.Tagged.taggedPut64FixedWidth_eq (lo ||| hi) (Tagged.len (lo ||| hi)) h
+  rw [hl, Varint.Bridge.TaggedQ.taggedPutFixedQuick_eq, Tagged.encFixed_len _ h] at *
+  refine ⟨rfl, hf.1, ?_⟩
+  rw [hf.2.2, Tagged.enc_length]
 
 end Varint.Props.C05
